@@ -1,4 +1,4 @@
-(* The four ORDER FACTS of Model.v (ffacts) are needed: with one of them false - the variant order of [stepF] - a property of this
+(* The five ORDER FACTS of Model.v (ffacts) are needed: with one of them false - the variant order of [stepF] - a property of this
    layer fails.  Each refutation is a concrete run of the variant model under the GENERATED tables (vm_compute).  The slips are
    the ones independent mutation authors made in the Rust source; all of them pass the crate's own test suite. *)
 From stdpp Require Import list numbers option.
@@ -26,13 +26,17 @@ Qed.
 
 (* the four single-slip variants *)
 Definition wake_with_before_park : ffacts :=
-  {| f_park_before_wake_with := false; f_requeue_before_park := true; f_future_drop_inert := true; f_wake_thread_unparks_always := true |}.
+  {| f_park_before_wake_with := false; f_requeue_before_park := true; f_future_drop_inert := true; f_wake_thread_unparks_always := true;
+     f_syncfuture_state_dropped_first := true |}.
 Definition requeue_after_wake_with : ffacts :=
-  {| f_park_before_wake_with := true; f_requeue_before_park := false; f_future_drop_inert := true; f_wake_thread_unparks_always := true |}.
+  {| f_park_before_wake_with := true; f_requeue_before_park := false; f_future_drop_inert := true; f_wake_thread_unparks_always := true;
+     f_syncfuture_state_dropped_first := true |}.
 Definition future_drop_resets_state : ffacts :=
-  {| f_park_before_wake_with := true; f_requeue_before_park := true; f_future_drop_inert := false; f_wake_thread_unparks_always := true |}.
+  {| f_park_before_wake_with := true; f_requeue_before_park := true; f_future_drop_inert := false; f_wake_thread_unparks_always := true;
+     f_syncfuture_state_dropped_first := true |}.
 Definition unpark_only_if_parked : ffacts :=
-  {| f_park_before_wake_with := true; f_requeue_before_park := true; f_future_drop_inert := true; f_wake_thread_unparks_always := false |}.
+  {| f_park_before_wake_with := true; f_requeue_before_park := true; f_future_drop_inert := true; f_wake_thread_unparks_always := false;
+     f_syncfuture_state_dropped_first := true |}.
 
 (* ---------- (a) f_park_before_wake_with ----------
    Caller 0 schedules a future operation (op 0 awaits event 0), polls the future once and drops it; caller 1 fires event 0; one
@@ -245,3 +249,25 @@ Print Assumptions zero_pool_await_after_drop_refuted.
 Print Assumptions C04_needs_waiter_takeover_refuted.
 Print Assumptions C04_sync_returns_needs_claim_cond.
 Print Assumptions waiter_takeover_generated_table.
+
+(* ---------- (e) f_syncfuture_state_dropped_first (C08, field order of SyncFuture) ----------
+   Caller 0 calls future_sync (user future awaits event 0, never fired), polls twice and drops; caller 1 schedules a desync behind it;
+   one pool thread.  With the fields of SyncFuture declared the other way round (`task_finished` before `state`), the drop sends
+   Canceled to the slot job FIRST: the pool thread finishes the slot job and starts caller 1's operation while the user future of
+   caller 0 - which holds `&mut T` - is still alive (it is destroyed only afterwards). *)
+Definition task_finished_dropped_first : ffacts :=
+  {| f_park_before_wake_with := true; f_requeue_before_park := true; f_future_drop_inert := true; f_wake_thread_unparks_always := true;
+     f_syncfuture_state_dropped_first := false |}.
+Definition C08_4_swapped_field_order_violation : Prop :=
+  exists tr s l2 l1, runF task_finished_dropped_first G (init [[OFutSync [PAwait 0] (UDropAfter 2)]; [ODesync]] 1 1) tr = Some s /\
+    s.(log) = l2 ++ GStart 1 :: l1 /\ GYnew 0 0 1 ∈ l1 /\ GUStart 0 ∈ l1 /\ GUCancel 0 ∉ l1 /\ GUFinish 0 ∉ l1 /\ GFinish 0 ∈ l1.
+Theorem C08_4_field_order_needed_refuted : C08_4_swapped_field_order_violation.
+Proof.
+  exists ([0; 1; 0; 0; 0; 0; 0; 0; 2; 0; 0; 0; 1; 0; 0; 0; 0; 0; 0; 0; 0; 0; 0; 0; 0; 0; 0; 0; 0; 0; 0; 0; 0; 0; 2; 2; 0; 2; 2; 2; 2; 2] ++ [2; 2; 2; 2]).
+  eexists. exists [GFinish 1], [GFinish 0; GSig 0 0; GUStart 0; GPush 1; GStart 0; GPush 0; GYnew 0 0 1].
+  split; [vm_compute; reflexivity|]. split; [vm_compute; reflexivity|].
+  rewrite !elem_of_cons, !elem_of_nil. split; [tauto|]. split; [tauto|].
+  split; [intros H; repeat (destruct H as [H|H]; [discriminate H|]); done|].
+  split; [intros H; repeat (destruct H as [H|H]; [discriminate H|]); done|tauto].
+Qed.
+Print Assumptions C08_4_field_order_needed_refuted.
